@@ -259,7 +259,16 @@ class Interp:
             env[a.asname or a.name.split('.')[0]] = Module(a.name)
 
     def st_ImportFrom(self, s, env):
+        rel = extract.module_relpath(s.module) if s.module else None
         for a in s.names:
+            if rel:
+                m2 = extract.load(rel, self.overrides.get(rel))
+                if a.name in m2.funcs:
+                    env[a.asname or a.name] = FuncRef(m2, None, m2.funcs[a.name])
+                    continue
+                if a.name in m2.classes:
+                    env[a.asname or a.name] = ClassRef(m2, a.name)
+                    continue
             env[a.asname or a.name] = Opaque('import:%s.%s' % (s.module, a.name))
 
     def st_Global(self, s, env):
@@ -1256,6 +1265,11 @@ class Interp:
             raise Unsupported('attribute %s of %s not modelled' % (attr, base.cls))
         if isinstance(base, SArr):
             return self.arr_attr(base, attr)
+        if isinstance(base, SCompact) and attr in ('real', 'imag'):
+            v = base.val
+            if attr == 'real':
+                return SCompact(base.mask, lambda i: (v(i).re if isinstance(v(i), Cx) else v(i)), 'real', base.mget)
+            return SCompact(base.mask, lambda i: (v(i).im if isinstance(v(i), Cx) else 0), 'real', base.mget)
         if isinstance(base, Module):
             if base.name == 'numpy':
                 if attr == 'inf':
@@ -1573,7 +1587,7 @@ class Interp:
             if v.arr.ndim != 1:
                 raise Unsupported('.flat of n-d array as value')
             v = v.arr
-        if isinstance(v, SCompact):
+        if isinstance(v, SCompact) and not (isinstance(idx, SArr) and v.mask is idx):
             raise Unsupported('store of compaction')
         if isinstance(v, (Opaque, SObj)) or v is None:
             raise Unsupported('store of opaque value into array')
@@ -2135,4 +2149,4 @@ BUILTINS = {'len', 'range', 'isinstance', 'abs', 'min', 'max', 'float', 'int', '
             'getattr', 'hasattr', 'type', 'repr', 'id', 'callable', 'reversed', 'slice', 'iter',
             'next', 'frozenset', 'complex', 'round', 'divmod', 'issubclass', 'setattr', 'map',
             'old', 'implies', 'iff', 'ite', 'Sum', 'is_none', 'is_inf', 'is_nan', 'same_object',
-            'arr_eq', 'ghost', 'fp_finite', 'is_view', 'is_scalar', 'is_vector', 'approx', 'same_fp', 'same_fp_bool', 'exceeds', 'below', 'pow', 'floor'}
+            'arr_eq', 'ghost', 'fp_finite', 'is_view', 'is_scalar', 'is_vector', 'approx', 'same_fp', 'same_fp_bool', 'exceeds', 'below', 'pow', 'floor', 'approx_h', 'atan2', 'floor_', 'le'}
